@@ -236,6 +236,20 @@ def call_method(ex: Any, selfv: V, name: str, args: List[V], kwargs: Dict[str, V
 def list_method(ex: Any, l: VList, name: str, args: List[V], st: State, node: ast.AST) -> Iterator[Tuple[V, State]]:
     if name in ("append", "remove", "extend", "pop", "insert"):
         st = ex.forget_len(l, st)
+    if getattr(l, "untyped", False) and name in ("append", "extend", "insert") and args:
+        src = args[-1]
+        if isinstance(src, VList):
+            l.elem = src.elem
+        else:
+            from .values import TRefU as _TRefU
+            if isinstance(src, VUnion) and src.alts and all(isinstance(a, VRef) for _, a in src.alts):
+                l.elem = _TRefU(*[a.cls for _, a in src.alts])
+            elif isinstance(src, VRef):
+                l.elem = T.Ref(src.cls)
+            else:
+                l.elem = getattr(src, "ty", l.elem)
+        l.ty = type(l.ty)(l.elem, l.view)
+        l.untyped = False
     if name == "append":
         (x,) = args
         if l.view == "seq":
